@@ -8,6 +8,7 @@
 //!   C <id> <Type> [p-hex]       start case; <Type> selects the estimator type
 //!   N r | D r                   r = Type::new() | Type::default()
 //!   Q r p                       r = Quantile::new(p)   (any estimator: new with param p)
+//!   AT r x...                   like A, through the Estimate trait (UFCS) rather than method syntax
 //!   V r v                       r = Type::from_value(v)            (Min/Max)
 //!   A r x...                    r.add(x) for each x (pairs for 2-ary estimators)
 //!   AR r count x...             `count` adds, cycling through x...
@@ -144,6 +145,22 @@ fn run_case<T: Est>(params: &[&str], ops: &[Vec<&str>], out: &mut String) {
                     }
                 }) {
                     writeln!(out, "p {} {}", idx, m).unwrap();
+                }
+            }
+            "AT" => {
+                // like A, but through the Estimate trait (UFCS) instead of method syntax
+                let vals = pfs(&op[2..]);
+                let r = need!(reg(op[1]));
+                match guarded(|| {
+                    let mut ok = true;
+                    for c in vals.chunks(T::ARITY) {
+                        ok &= r.add1_trait(c);
+                    }
+                    ok
+                }) {
+                    Ok(true) => {}
+                    Ok(false) => unsupported!(),
+                    Err(m) => writeln!(out, "p {} {}", idx, m).unwrap(),
                 }
             }
             "AR" => {
